@@ -23,6 +23,8 @@ theorem of lean/Operon/Props/C18.lean that consumes it:
   * validTable       : HealingOutcome -> HealingResult.valid
   * traceTable       : error_trace the validator reported (None / "" / texts) -> was the default text recorded instead?
   * prefixTable      : length of the raw output -> how many of its characters the retry was shown.
+  * healedTable      : validator accepts from its k-th answer on (k = 0..5, max_retries 3) -> (outcome, tagged, generator
+                       calls, valid); the folded protein must be the validator's last answer, DEGRADED carries none.
   * feedTable        : retry i -> which earlier attempts' validator traces / raw outputs its error context carries
                        (must be exactly attempt i-1), on a fresh loop and on the second call of a used one.
 
@@ -365,6 +367,47 @@ def prefix_point(cl, schema, n):
 FEED_N = 4
 
 
+def healed_point(cl, schema, k):
+    """validator accepts from its k-th call on, max_retries = 3 -> (outcome, tagged, generator calls, result.valid);
+    the folded protein must be the validator's own answer and the structure its structure; two routes"""
+    def one(lp):
+        n = [0]
+        chap = _Chap(valid_at=k)
+        last = []
+        orig = chap.fold_enhanced
+
+        def fold(raw, sch, *a, **kw):
+            f = orig(raw, sch, *a, **kw)
+            f.structure = ("S", chap.n)
+            last.append(f)
+            return f
+        chap.fold_enhanced = fold
+
+        def gen(prompt, ctx=None):
+            n[0] += 1
+            return f"out {n[0]}"
+        lp.generator, lp.chaperone = gen, chap
+        r = lp.heal("p")
+        name = r.outcome.name
+        if name in ("HEALED", "VALID_FIRST_TRY"):
+            if r.folded is not last[-1] or r.structure != ("S", chap.n) or not last[-1].valid:
+                return None
+        elif r.folded is not None or r.structure is not None or r.final_confidence != 0.0:
+            return None
+        if len(r.attempts) != n[0]:
+            return None
+        return (name, bool(r.ubiquitin_tagged), n[0], bool(r.valid))
+    try:
+        a = one(_mk_loop(cl, schema, max_retries=3))
+        lp = _mk_loop(cl, schema, max_retries=0)
+        lp.max_retries = 3
+        one(lp)
+        b = one(lp)
+        return a if a == b else None
+    except Exception:
+        return None
+
+
 def feed_points(cl, schema):
     """-> for every retry i = 1..FEED_N: (indices of the earlier attempts whose validator trace is visible in the error
     context shown to attempt i, indices of the earlier attempts whose raw output is visible in it); along two routes
@@ -507,6 +550,18 @@ def render(cl, rs, nu, providers):
           [f"({_opt(t, _str)}, {_opt(trace_point(cl, S, t), lambda b: 'true' if b else 'false')})" for t in TRACES])
     table("prefixTable", "length of the raw output ↦ number of its leading characters the retry is shown", "Nat × Option Nat",
           [f"({n}, {_opt(prefix_point(cl, S, n))})" for n in PREFIX_LENS])
+    oc = {"VALID_FIRST_TRY": ".validFirstTry", "HEALED": ".healed", "DEGRADED": ".degraded"}
+    bl = lambda b: "true" if b else "false"     # noqa: E731
+
+    def show_healed(q):
+        return f"({oc[q[0]]}, {bl(q[1])}, {q[2]}, {bl(q[3])})" if q[0] in oc else None
+    rows = []
+    for k in range(0, 6):
+        q = healed_point(cl, S, k)
+        shown = show_healed(q) if q is not None else None
+        rows.append(f"({k}, {'none' if shown is None else '(some ' + shown + ')'})")
+    table("healedTable", "validator accepts from its k-th answer on, max_retries 3 ↦ (outcome, tagged, generator calls, valid)",
+          "Nat × Option (Outcome × Bool × Nat × Bool)", rows)
     lst = lambda xs: "[" + ", ".join(map(str, xs)) + "]"     # noqa: E731
     table("feedTable", "retry i ↦ (attempts whose validator trace, attempts whose raw output) the error context shown to it carries",
           "Nat × Option (List Nat × List Nat)",
@@ -529,7 +584,7 @@ def render(cl, rs, nu, providers):
 def run(lean_dir: Path, write_if_changed, cl, rs, nu, providers) -> list[dict]:
     text, info = render(cl, rs, nu, providers)
     changed = write_if_changed(Path(lean_dir) / "Operon/Gen/LoopTables.lean", text)
-    points = len(LIMS) * 2 + len(SLIMS) ** 2 + len(MARKER_PROBES) + len(PATTERNS) * len(THRS) + 3 + len(TRACES) + len(PREFIX_LENS) + FEED_N + 7
+    points = len(LIMS) * 2 + len(SLIMS) ** 2 + len(MARKER_PROBES) + len(PATTERNS) * len(THRS) + 3 + len(TRACES) + len(PREFIX_LENS) + FEED_N + 6 + 7
     return [{"id": "eval-loops", "facts_changed": bool(changed), "points": points, "poisoned": info["poisoned"]}]
 
 
